@@ -56,6 +56,37 @@ def world():
     return fs, rt
 
 
+_SERVER_GLOBALS = {}
+
+
+def reset_server(rt=None):
+    """a freshly started server process: module-level state of frontend.server.connector is what it is right after
+    import (manager instances re-created, containers restored to their import-time content)"""
+    import copy
+    import frontend.server.connector as CN
+    SM = FIX["mods"][1]
+    if not _SERVER_GLOBALS:
+        for name, v in list(vars(CN).items()):
+            if name.startswith("__"):
+                continue
+            if isinstance(v, (dict, list, set)):
+                _SERVER_GLOBALS[name] = copy.copy(v)
+    for name, v in list(vars(CN).items()):
+        if isinstance(v, SM.ServicesManager):
+            setattr(CN, name, SM.ServicesManager())
+    for name, v0 in _SERVER_GLOBALS.items():
+        setattr(CN, name, copy.copy(v0))
+    return CN
+
+
+def connect(rt, ws, sid):
+    """a client connection reaches the server: connector.handler is started on it, the init frame is its first
+    message (what the real client sends first)"""
+    import frontend.server.connector as CN
+    ws.feed(msg("init", sid, b""))
+    return rt.create_task(CN.handler(ws, "/"))
+
+
 def msg(mtype, sid, content, **extra):
     d = {"type": mtype, "sid": sid, "content": content}
     if mtype is None:
